@@ -61,7 +61,8 @@ type Arm struct {
 	// Budget: the disk accepts at most this many more bytes from this handle
 	// during the operation, then the fault triggers.
 	Budget int64
-	// Kind: "fail" (accept Budget bytes, return Err), "withfull" (accept all the
+	// Kind: "short_nil_each" = every call accepts at most Budget bytes, nil error;
+	// "fail" (accept Budget bytes, return Err), "withfull" (accept all the
 	// bytes of the first non-empty request and ALSO return Err), "short_nil"
 	// (accept Budget bytes and return nil: violates io.WriterAt, separate
 	// sub-configuration).
@@ -132,6 +133,18 @@ func (h *Handle) WriteAt(p []byte, off int64) (int, error) {
 		case h.sticky != nil:
 			accept, err = 0, h.sticky
 			d.Fired["disk.sticky_refusal"]++
+		case h.arm.Active && h.arm.Kind == "short_nil_each":
+			// EVERY call of the operation accepts at most Budget bytes and reports
+			// no error (a writer that violates io.WriterAt repeatedly): an
+			// implementation that loops until everything is written sees several
+			// short counts in one operation
+			if h.arm.Budget < accept {
+				accept = h.arm.Budget
+				if !h.arm.fired {
+					d.Fired["disk.short_nil_each"]++
+				}
+				h.arm.fired = true
+			}
 		case h.arm.Active && !h.arm.fired:
 			switch h.arm.Kind {
 			case "fail":
